@@ -117,6 +117,7 @@ func (l *Lexer) Next() (token.Token, error) {
 	// multi-line comments
 	if l.ch == rune('/') && l.peekChar() == rune('*') {
 		l.skipMultiLineComment()
+		return l.Next()
 	}
 
 	if l.prevToken.Type == token.EOF {
@@ -416,7 +417,7 @@ func (l *Lexer) skipMultiLineComment() {
 	for !found {
 		// break at the end of our input.
 		if l.ch == rune(0) {
-			found = true
+			break
 		}
 		// otherwise keep going until we find "*/"
 		if l.ch == '*' && l.peekChar() == '/' {
